@@ -22,13 +22,11 @@ Definition toy_enc (p : packet) : list byte :=
   end.
 
 Definition toy_decode (t : N) (bs : list byte) : option packet :=
-  match t, bs with
-  | 12, [_; _] => Some Pingreq
-  | 14, [_; _] => Some Disconnect
-  | 4, [_; _; _; x07] => Some (Puback 7)
-  | 3, _ => if len bs =? 134 then Some toy_big else None
-  | _, _ => None
-  end.
+  if (t =? 12) && (len bs =? 2) then Some Pingreq
+  else if (t =? 14) && (len bs =? 2) then Some Disconnect
+  else if (t =? 4) && (len bs =? 4) then Some (Puback 7)
+  else if (t =? 3) && (len bs =? 134) then Some toy_big
+  else None.
 
 Lemma toy_detect_enc : forall p, toy_good p ->
   exists h, 2 <= h /\ h <= 5 /\ h <= len (toy_enc p) /\
